@@ -141,6 +141,14 @@ def convSpecs : List (String × SpecFn) := [
       | _ => some (expectVal (decDec (r.getD 0 "")) x))
 ]
 
-def convSpecTable : SpecTable := convSpecs.foldl (fun m (k, v) => m.insert k v) allSpecTable
+/-- the generated conversions are also driven directly through the hook dispatcher (kernel mode):
+    same line format as the `api.*` forms, same judgement -/
+def convAliases : List (String × String) :=
+  [("FromFloat64", "api.FromFloat64"), ("FromFloat32", "api.FromFloat32"),
+   ("Decimal.Float64", "api.Float64"), ("Decimal.Float32", "api.Float32")]
+
+def convSpecTable : SpecTable :=
+  let t := convSpecs.foldl (fun m (k, v) => m.insert k v) allSpecTable
+  convAliases.foldl (fun m (k, k') => match t.get? k' with | some v => m.insert k v | none => m) t
 
 end Oracle
